@@ -36,7 +36,7 @@ MIN_DECIDED = {"quick": 2500, "thorough": 50000}
 
 def cases(tier, seed):
     rng = gen.rng_for(seed, PROP, tier)
-    n = 150 if tier == "quick" else 3200
+    n = 260 if tier == "quick" else 3600
     out = []
     for i in range(n):
         mode = "code" if rng.random() < 0.72 else "particle"
@@ -61,6 +61,8 @@ def build_world(rng, p):
 
     w = World()
     w.mode, w.scale, w.order = p["mode"], p["scale"], p["order"]
+    w.idtype = p["idtype"]
+    w.next_uid = 100000
     nimg = p["nimg"] if p["kind"] == "batch" else 1
     w.rows = []         # model rows in loader order
     w.images = {}
@@ -287,16 +289,58 @@ def verify_particles(case, w, loader, rows, what, rng):
 # ------------------------------------------------------------------ history
 
 
+def _add_tomogram(case, rng, w, loader, rows, log):
+    import polars as pl
+    from acryo import Molecules
+
+    # a new tomogram joins a copy of the (possibly derived) batch loader, id chosen by the loader
+    new = loader.copy()
+    before_ids = set(new.images)
+    j = 50 + len(log)
+    spacing, nn = 8, int(rng.integers(1, 4))
+    T = (spacing + 1, spacing + 1, spacing * nn + 1)
+    vol = np.zeros(T, np.float32)
+    add_rows = []
+    for i in range(nn):
+        c = np.array([spacing // 2, spacing // 2, spacing // 2 + spacing * i], float)
+        code = float(1000 * (j + 1) + i + 1)
+        vol[int(c[0]) - 3:int(c[0]) + 4, int(c[1]) - 3:int(c[1]) + 4, int(c[2]) - 3:int(c[2]) + 4] = code
+        w.next_uid += 1
+        add_rows.append({"uid": w.next_uid, "img": None, "pos": c * w.scale, "code": code, "disp": None,
+                         "g": int(rng.integers(0, 3)), "v": float(np.round(rng.normal(), 3))})
+    mo = Molecules(np.array([r["pos"] for r in add_rows]),
+                   features=pl.DataFrame({"uid": [r["uid"] for r in add_rows], "g": [r["g"] for r in add_rows],
+                                          "v": [r["v"] for r in add_rows]}))
+    explicit = None
+    if rng.random() < 0.3:
+        explicit = max([k for k in before_ids if isinstance(k, int)] + [0]) + int(rng.integers(1, 4))
+    new.add_tomogram(vol, mo, image_id=explicit)
+    new_ids = set(new.images) - before_ids
+    if case.check(len(new_ids) == 1 and len(new.images) == len(before_ids) + 1,
+                  "add_tomogram did not register exactly one new image under a fresh id", None,
+                  before=sorted(map(str, before_ids)), after=sorted(map(str, new.images))):
+        nid = new_ids.pop()
+        for r in add_rows:
+            r["img"] = nid
+        out = verify(case, w, new, rows + add_rows, "add_tomogram on a derived batch loader")
+    else:
+        out = rows
+        new = loader
+    return new, out
+
+
 def step(case, rng, w, loader, rows, log):
     import polars as pl
     from acryo import Molecules
 
     n = len(rows)
     ops = ["filter", "head", "tail", "sample", "sort", "replace", "copy", "binning1", "group", "group",
-           "filter-mask", "shuffle"]
+           "filter-mask", "shuffle", "add", "drop-image", "drop-image"]
     op = ops[int(rng.integers(0, len(ops)))]
     if n == 0:
         op = "copy"
+    if op in ("add", "drop-image") and not (w.batch and w.mode == "code" and w.idtype == "int"):
+        op = "filter"
     log.append(op)
     before = snapshot(loader)
     if op == "filter":
@@ -330,6 +374,20 @@ def step(case, rng, w, loader, rows, log):
         perm = rng.permutation(n)
         new = loader.replace(molecules=loader.molecules.subset(perm.astype(np.int64)))
         out = verify(case, w, new, [rows[i] for i in perm], "replace(permuted molecules)")
+    elif op == "drop-image":
+        # drop every molecule of one tomogram (the derived loader forgets that image)
+        ids = list(dict.fromkeys(r["img"] for r in rows))
+        victim = ids[int(rng.integers(0, len(ids)))]
+        new = loader.filter(pl.col("image-id") != victim)
+        want = [r for r in rows if r["img"] != victim]
+        out = verify(case, w, new, want, f"filter(image-id != {victim})")
+        case.check(victim not in new.images and set(new.images) == {r["img"] for r in want} or not want,
+                   "derived batch loader keeps/loses the wrong images", None, images=list(new.images))
+        if rng.random() < 0.7 and out:
+            log.append("add")
+            new, out = _add_tomogram(case, rng, w, new, out, log)
+    elif op == "add":
+        new, out = _add_tomogram(case, rng, w, loader, rows, log)
     elif op == "replace":
         new = loader.replace(order=w.order, scale=w.scale, output_shape=w.shape, corner_safe=bool(rng.random() < 0.3))
         out = verify(case, w, new, rows, "replace(params)")
@@ -394,11 +452,19 @@ def step(case, rng, w, loader, rows, log):
                 case.check(rawkey[kv] in avg and abs(float(avg[rawkey[kv]].mean()) - wantv) <= 1e-2,
                            "group average is not the mean over the group's own molecules", None, key=kv)
         elif sub_op == "apply" and w.mode == "code":
-            dfs = grp.apply(np.mean, schema=["m"])
+            nf = int(rng.integers(1, 4))
+            funcs = [np.mean, np.max, np.min][:nf]
+            names = ["m", "mx", "mn"][:nf]
+            dfs = grp.apply(funcs[0] if nf == 1 and rng.random() < 0.5 else funcs, schema=names)
             for kv, _, want in parts:
-                ok = rawkey[kv] in dfs and np.allclose(dfs[rawkey[kv]]["m"].to_numpy(), [r["code"] for r in want], atol=TOLERANCES["code"])
-                case.check(ok, "group apply row r is not molecule r of the group",
-                           "batch.task-order-vs-molecule-order" if w.batch else None, key=kv)
+                df = dfs.get(rawkey[kv])
+                codes = np.array([r["code"] for r in want], float)
+                ok = df is not None and df.shape == (len(want), nf) and df.columns == names
+                if ok:
+                    ok = all(df[c].dtype.is_numeric() for c in names) and \
+                        all(np.allclose(df[c].to_numpy(), codes, atol=TOLERANCES["code"]) for c in names)
+                case.check(ok, "group apply: table is not (molecules of the group) x (functions), row r = molecule r",
+                           None, key=kv, n=len(want), nfuncs=nf, got_shape=None if df is None else df.shape)
         elif sub_op == "align":
             res = grp.align(w.template, max_shifts=2.5 * w.scale)
             got = list(res)
